@@ -57,6 +57,17 @@ def gen(ctx):
         c["test_fdr"] = rng.choice(["0.5", "0.25", "0.1", "0.05", "0.01", "1.0"])
         c["tags"] = ["brew"] + [t for t in c["tags"] if t.startswith(("folds", "files"))] + ["fdr=" + c["test_fdr"], c["est_mode"]]
         cases.append(c)
+    # several prediction chunks, each holding accepted targets and decoys of every fold (calibration must still be per fold,
+    # over all chunks together): well separated targets, so that every part of a fold accepts some
+    rng = ctx.sub("cal-brew-chunks")
+    for k in range(16 if ctx.thorough else 6):
+        n = rng.randint(80, 160)
+        f = brewlib.gen_file(rng, n, rng.choice([2, 3]), file_idx=0, mult=(1, 2), label_enc="pm1", quality=0.95)
+        parts = rng.choice([2, 3])
+        cases.append({"fn": "brew", "files": [f], "folds": 2, "seed": rng.randint(0, 10 ** 6), "test_fdr": rng.choice(["0.5", "0.25"]),
+                      "workers": rng.choice([1, 2]), "subset_max_train": None, "chunks": {"predict": n // parts + 1}, "fmt": "tsv",
+                      "row_group": None, "est_mode": "decision",
+                      "tags": ["brew", "files=1", "multi-chunk-well-separated", "chunks=%d" % parts, "decision"]})
     return cases
 
 
